@@ -56,7 +56,7 @@ CHECKS = {
    text="Seeded sequences of allocator operations, structured as the database issues them, run on both freelist backends against a shadow specification written from the property; serialisation checked by the published page layout incl. the >65534-entry encoding. The allocator has no I/O/clock/schedule: plain seeded model-based testing, said plainly.",
    tech="seeded model-based testing of the freelist backends against a shadow specification (fault-free arm; no simulator dimension in this component)"),
  "C11": dict(engine="corruptsim", cat="fault_enumeration", ref="DESIGN.md §6 C11",
-   text="Stored-byte fault injection on files at rest: every byte of each 64-byte meta record x replacement values (all 255 in thorough, boundary + sampled values in quick), every prefix of a would-be newer meta, both-damaged pairs, truncations, junk; expected Open result derived from the independent decoder and the model version table. Files are sampled.",
+   text="Stored-byte fault injection on files at rest: every byte of each 64-byte meta record x replacement values (all 255 in thorough, boundary + sampled values in quick), every prefix of a would-be newer meta, both-damaged pairs, truncations, junk; expected Open result derived from the independent decoder and the model version table. Files are sampled; a quarter of them are hot backups (Tx.WriteTo), and every source must have two valid meta pages before anything is damaged.",
    tech="fault injection on stored bytes (exhaustive per file in thorough) with an independent decoder as oracle"),
  "C13": dict(engine="optsim", cat="exploration", ref="DESIGN.md §6 C13",
    text="One seeded history executed under three option schedules (option assignment per Open, incl. flipping freelist-sync/backend at every reopen, different page sizes, read-only passes); every result compared with the model in each execution; rebuilt free list compared with the persisted one on the same file.",
